@@ -114,21 +114,24 @@ CLAIMED["C13"] = dict(cat="proof", ref="DESIGN.md §5 C13, §12",
         "the 'namespace+name vs dotted' rewrite is tested, not proved; known finding F18 (null namespace inside a namespaced type: the specification's form is "
         "not a fixed point); strings are interpolated without JSON escaping in both implementation and model (names/symbols are regex-restricted)",
    tech="Lean 4 proof (parser/canonical writer lockstep with an independent spec transformation) + cosmetic-rewrite harness")
-CLAIMED["C08"] = dict(cat="proof", ref="DESIGN.md §5 C08, §12",
-   text="PARTIAL proof. Lean theorems: the decision logic for every pair of schemas at any nesting, inline or by reference — c08_match_eq_spec (whenever match_types "
-        "returns it returns the specification's 'schemas match') and c08_pick_eq_spec (the branch of a reader union found through _reader_branches + match_types is the "
-        "one the specification's rule picks: own type first, full-name match before namesakes, else first promotable) under EnvWF/MClosed (tables as parse_schema builds "
-        "them, schemas closed); and each resolution step for every input: c08_promotions (the promotion pairs of match_types and the conversions of "
-        "maybe_promote are the specification's; both are regenerated from /repo's source each run — Tables.resolve_tables), c08_primitives (a primitive under "
-        "a primitive reader type = the specification reader on every byte string), c08_enum_default, c08_field_matching (match by name, else reader alias, any "
-        "order, others skipped). The composition through arrays, maps, records, unions and named types at any depth (C08_full, stated in Properties/C08.lean) is "
-        "not proved yet: it is checked by comparing implementation, model (Resolve.readR) and the specification reader (Spec.resolveRead, written from the rule "
-        "list) on reader schemas derived from the writer schema by 1-4 of 27 kinds of compatible/incompatible evolution steps at random depths, reader == writer "
-        "as separate/cosmetically different object, schemaless and container readers.",
-   note="composition clause observed, not proved; reader field defaults are returned as the raw JSON value (bytes/fixed/nested-record defaults excluded from "
-        "generation); return_* options together with a reader schema and logical types under resolution are outside the model; eager schema matching of "
+CLAIMED["C08"] = dict(cat="proof", ref="DESIGN.md §5 C08, §11, §12",
+   text="Lean proof of the whole resolving reader against an independent specification reader. c08_resolve_eq_spec: for every writer/reader schema pair, every byte "
+        "string and every nesting depth, each definite result of read_data with a reader schema (model Resolve.readR: value + remaining bytes, schema-resolution "
+        "error, decoding error) is the result of Spec.resolveRead (written from the specification's rule list) — through arrays, maps, records (field matching by "
+        "name then alias, skipping, defaults), unions on either side and named types inline or by reference; by induction on nesting, composing c08_match_eq_spec "
+        "(match_types = the specification's 'schemas match'), Proofs/MatchSchemas (what match_schemas returns), c08_pick_eq_spec (reader-union branch = own type first, "
+        "full-name match before namesakes, else first promotable), Proofs/RecordDefaults (the fill-in-defaults loop = 'reader fields nothing was matched with take "
+        "their default'), c08_promotions / c08_primitives / c08_enum_default / c08_field_matching. Hypotheses (ResolveFull.Good, EnvWF): tables as parse_schema builds "
+        "them, names defined, no logical type in the writer schema, reader definitions are the reader table's entries, reader record fields told apart by name and by "
+        "alias, no union directly inside a union; the driver evaluates these hypotheses on every harness case (tag theorem-domain:inside/outside in the evidence). "
+        "The promotion pairs of match_types and the conversions of maybe_promote are regenerated from /repo's source each run (Tables.resolve_tables). Tie to the code: "
+        "implementation, model and specification reader are run on reader schemas derived from the writer schema by 1-4 of 27 kinds of compatible/incompatible "
+        "evolution steps at random depths, reader == writer as separate/cosmetically different object, schemaless and container readers.",
+   note="'definite' excludes only the model's own nesting-fuel exhaustion (fuel bounds nesting depth; the driver runs with 400). Modelled, not verified: the Python "
+        "source itself (tied by the differential run). Reader field defaults are returned as the raw JSON value (open finding F25; bytes/fixed/nested-record defaults "
+        "excluded from generation); return_* options together with a reader schema and logical types under resolution are outside the model; eager schema matching of "
         "arrays/maps (error even for an empty array) is taken as the specification's reading",
-   tech="Lean 4 step theorems + generated promotion tables + three-way differential run (implementation / model / specification reader)")
+   tech="Lean 4 proof (model reader = specification reader, induction on nesting) + generated promotion tables + three-way differential run (implementation / model / specification reader)")
 CLAIMED["C12"] = dict(cat="proof", ref="DESIGN.md §5 C12, §12",
    text="PARTIAL proof. Lean theorems: c12_marked_returned_unchanged (an object carrying the parsed marker is returned as it is and reproduces its named-schema "
         "dictionary, so every operation sees the pair it saw before), c12_name_is_definition_{read,write,validate,skip} (where a schema refers to a type by name "
